@@ -1,4 +1,5 @@
 import PsV.Model.FitGlam
+import PsV.Model.GlamFlatten
 import PsV.Driver.C17
 /-!
 Driver for C09 (unconstrained penalised fit).  Stateful: an `F` line sets the current problem, `C` lines judge
@@ -12,6 +13,10 @@ coefficient vectors returned by the real fit against it.  All arithmetic is exac
         `cert`: `M·c* = r` holds exactly; `sym`: `M` is symmetric.
   `C ncoef cbits32*` → `resid cnorm diff objhat maxres_hat maxres_star zmax`
         `resid = ‖M ĉ − r‖∞`, `diff = ‖ĉ − c*‖∞`, `objhat = objective ĉ`, `maxres = max_r |z_r − (B c)_r|`.
+  `L ndim ranges* ncol nentries (idx*)*` → `ub` | `ok pre=<0|1> (row col)*`
+        stateless: `flattenC` (Model/GlamFlatten.lean, the index arithmetic of `flatten_ndarray_to_sparse` in its C types,
+        `long moduli[]`) for every listed entry; `pre`: the hypotheses of `flatten_ctypes_exact` hold (ranges fit
+        `unsigned`, indices inside the ranges, `Π ranges < 2⁶³`, `0 < ncol < 2⁶⁴`).
 -/
 namespace PsV.Driver.C09
 open PsV PsV.Driver PsV.Driver.Eval PsV.Driver.C17
@@ -138,6 +143,36 @@ def handleC (st : Option State) (ws : List String) : String :=
       | _, _ => "bad-input"
     | [] => "bad-input"
 
+def parseTuples (nd : Nat) : Nat → List String → Option (List (List Nat))
+  | 0, _ => some []
+  | n+1, rest => do
+    let (iw, rest) ← takeN nd rest
+    let idx ← natList iw
+    let es ← parseTuples nd n rest
+    pure (idx :: es)
+
+def handleL (ws : List String) : String :=
+  let r : Option String := do
+    match ws with
+    | ndw :: rest =>
+      let nd ← ndw.toNat?
+      let (rw, rest) ← takeN nd rest
+      let ranges ← natList rw
+      match rest with
+      | ncw :: new :: rest =>
+        let ncol ← ncw.toNat?
+        let ne ← new.toNat?
+        let es ← parseTuples nd ne rest
+        let pre := ranges.all (fun r => decide (r < 4294967296)) && decide (natProd ranges < 9223372036854775808)
+          && decide (0 < ncol) && decide (ncol < 18446744073709551616)
+          && es.all (fun e => e.length == nd && (e.zip ranges).all fun (i, r) => decide (i < r))
+        let outs := es.map fun e => flattenC ranges e ncol
+        if outs.any (fun o => match o with | .ok _ => false | _ => true) then pure "ub" else
+        pure (s!"ok pre={b01 pre}" ++ String.join (outs.map fun o => match o with | .ok (r, c) => s!" {r} {c}" | _ => ""))
+      | _ => none
+    | [] => none
+  r.getD "bad-input"
+
 partial def loop (h out : IO.FS.Stream) (st : Option State) : IO Unit := do
   let line ← h.getLine
   if line.isEmpty then return ()
@@ -148,6 +183,9 @@ partial def loop (h out : IO.FS.Stream) (st : Option State) : IO Unit := do
     loop h out st'
   | "C" :: rest =>
     out.putStrLn (handleC st rest)
+    loop h out st
+  | "L" :: rest =>
+    out.putStrLn (handleL rest)
     loop h out st
   | _ =>
     out.putStrLn "bad-input"
